@@ -899,6 +899,9 @@ class HTTPConnectionPool(ConnectionPool, RequestMethods):
                 method = "GET"
                 # And lose the body not to transfer anything sensitive.
                 body = None
+                if isinstance(body_pos, int):
+                    # There is nothing left to rewind to this position.
+                    body_pos = None
                 headers = HTTPHeaderDict(headers)._prepare_for_method_change()
 
             try:
